@@ -1,12 +1,13 @@
 import runner
 import consts_stream
 import uper_streams
+from checks import c12
 from checks.uper_common import ASSUMPTIONS, TRUSTED
 
 
 class Spec(runner.Spec):
     prop = "C02"
     # `consts`: the descriptor constants the codec sees, re-derived from the ASN.1 source of the zoo
-    streams = [uper_streams.Conformance(), consts_stream.ConstsFromSource("C02")]
+    streams = [uper_streams.Conformance(), consts_stream.ConstsFromSource("C02"), c12.ResolveWitnesses()]
     assumptions = ASSUMPTIONS + ["the property quantifies over source schemas, the codec sees descriptors: stream `consts` compares every zoo type's descriptor constants with an expectation derived from the ASN.1 text by tools/consts_stream.py (own parser) and with Codegen/ConstsModel.lean; recorded deviations of the generator (findings of C08) are accepted as coded"]
     trusted_base = TRUSTED
